@@ -86,7 +86,8 @@ def ty_bits(ty):
 
 
 class Path:
-    __slots__ = ("store", "facts", "refine", "events", "ver", "visits", "maxbits", "assume", "tags", "conds")
+    __slots__ = ("store", "facts", "refine", "events", "ver", "visits", "maxbits", "assume", "tags", "conds",
+                 "bitfacts")
 
     def __init__(self):
         self.store = {}
@@ -99,6 +100,7 @@ class Path:
         self.assume = {}
         self.tags = {}
         self.conds = []
+        self.bitfacts = {}
 
     def copy(self):
         p = Path()
@@ -112,6 +114,7 @@ class Path:
         p.assume = self.assume  # shared, read-only during a run
         p.tags = dict(self.tags)
         p.conds = list(self.conds)
+        p.bitfacts = dict(self.bitfacts)
         return p
 
 
@@ -250,6 +253,13 @@ def bitvec(t, path, depth=0):
     mb = path.maxbits.get(t)
     if mb is not None and mb < len(bv):
         bv = bv[:mb] + [0] * (len(bv) - mb)
+    if path.bitfacts:
+        bf = path.bitfacts
+        for i, b in enumerate(bv):
+            if b is not None and b != 0 and b != 1:
+                v = bf.get((b[0], b[1]))
+                if v is not None:
+                    bv[i] = (1 - v) if b[2] else v
     return bv
 
 
@@ -425,6 +435,17 @@ def _cmp_bits(op, av, bw, same):
 # --------------------------------------------------------------------------- interpreter
 
 
+def _mentions_top(t, depth=0):
+    if not isinstance(t, tuple) or depth > 12:
+        return False
+    if t and t[0] == "top":
+        return True
+    for x in t:
+        if isinstance(x, tuple) and _mentions_top(x, depth + 1):
+            return True
+    return False
+
+
 class Outcome:
     __slots__ = ("kind", "value", "path", "site", "cls", "stack", "msg")
 
@@ -494,6 +515,44 @@ class Interp:
         self.nsteps = 0
         self.result_fail_paths = result_fail_paths
         self._from_cache = {}
+        self._loops = {}
+
+    # ------------------------------------------------------------ loops (A2)
+    def loops_of(self, body):
+        key = body["path"]
+        lp = self._loops.get(key)
+        if lp is not None:
+            return lp
+        lp = {}
+        idom = F.dominators(body)
+        bl = body["blocks"]
+        pr = F.preds(body)
+        for u in idom:
+            for h in F.succs(bl[u]):
+                if h in idom and F.dominates(idom, h, u):
+                    # natural loop of back edge u -> h
+                    nodes = {h, u}
+                    st = [u]
+                    while st:
+                        x = st.pop()
+                        if x == h:
+                            continue
+                        for p_ in pr[x]:
+                            if p_ not in nodes and p_ in idom:
+                                nodes.add(p_)
+                                st.append(p_)
+                    e = lp.setdefault(h, {"nodes": set(), "assigned": set()})
+                    e["nodes"] |= nodes
+        for h, e in lp.items():
+            for n in e["nodes"]:
+                for stt in bl[n]["s"]:
+                    if stt[0] == "a":
+                        e["assigned"].add(stt[1][0])
+                t = bl[n]["term"]
+                if t["k"] == "call":
+                    e["assigned"].add(t["dest"][0])
+        self._loops[key] = lp
+        return lp
 
     # ------------------------------------------------------------ store
     def read_loc(self, path, loc):
@@ -727,6 +786,8 @@ class Interp:
                 return ("agg", "tuple", None, (r, o))
             if op in CMP_OPS:
                 return self.binop(path, op, a, b, 8, signed)
+            if op in ("Div", "Rem"):
+                path.events.append(("divop", op, a, b, bits, signed))
             return self.binop(path, op, a, b, bits, signed)
         if k == "un":
             a = self.eval_operand(path, frame, rv[2])
@@ -892,6 +953,16 @@ class Interp:
                 op = "Eq"
                 truth = not truth
             if op == "Eq" and is_int(b):
+                if a[0] == "bin" and a[1] == "BitAnd" and is_int(a[3]):
+                    m = a[3][1]
+                    single = m != 0 and (m & (m - 1)) == 0
+                    if truth or single:
+                        xb = bitvec(a[2], Path())
+                        for i, bit in enumerate(xb):
+                            if (m >> i) & 1 and bit is not None and bit not in (0, 1):
+                                cbit = (b[1] >> i) & 1
+                                val_i = cbit if truth else 1 - cbit
+                                path.bitfacts[(bit[0], bit[1])] = (1 - val_i) if bit[2] else val_i
                 if truth:
                     self.assume_cond(path, a, b[1])
                 else:
@@ -944,10 +1015,23 @@ class Interp:
             key = (frame.fid, bb)
             n = path.visits.get(key, 0) + 1
             path.visits[key] = n
-            if n > self.loop_bound + 1:
-                yield Outcome("cut", None, path, site=F.site_str(body, blocks[bb]["term"]["sp"]), msg="loop-bound",
-                              stack=frame.stack())
-                return
+            if n > 1:
+                loops = self.loops_of(body)
+                lp = loops.get(bb)
+                if lp is not None:
+                    if n == 2:
+                        # widen: forget everything the loop body assigns, run one generic iteration
+                        for l in lp["assigned"]:
+                            path.store[("L", frame.fid, l)] = TOP("loop")
+                        path.events.append(("loop_widened", body["path"], bb))
+                        # facts about forgotten values must go as well
+                        path.facts = {k: v for k, v in path.facts.items() if not _mentions_top(k)}
+                    else:
+                        return  # covered by the widened iteration
+                elif n > self.loop_bound + 1:
+                    yield Outcome("cut", None, path, site=F.site_str(body, blocks[bb]["term"]["sp"]),
+                                  msg="loop-bound", stack=frame.stack())
+                    return
             blk = blocks[bb]
             for st in blk["s"]:
                 if st[0] == "a":
@@ -1069,6 +1153,11 @@ class Interp:
             fnv = self.eval_operand(path, frame, f["indirect"])
             path.events.append(("indirect_call", fnv, tuple(args), site, body["path"]))
             return self._opaque(path, frame, t, "indirect", args, depth, havoc=True)
+        if f.get("def") in self.FN_TRAIT_CALLS:
+            r = self.closure_call(path, frame, t, name, args, depth)
+            if r is not None:
+                return r
+            return self._opaque(path, frame, t, name, args, depth, havoc=True)
         # rule-specific primitives
         if self.intercept is not None:
             r = self.intercept(self, path, frame, t, name, args)
@@ -1241,6 +1330,19 @@ class Interp:
                 op = "Shl" if meth.endswith("shl") else "Shr"
                 cnt = self.binop(path, "BitAnd", b, INT(bits - 1, 32), 32)
                 return self._multi(path, frame, t, [(self.binop(path, op, a, cnt, bits, signed), path)], depth)
+            if meth in ("checked_shl", "checked_shr"):
+                op = "Shl" if meth.endswith("shl") else "Shr"
+                lo, hi = bv_range(bitvec(b, path))
+                val = self.binop(path, op, a, b, bits, signed)
+                if hi < bits:
+                    return self._multi(path, frame, t, [(SOME(val), path)], depth)
+                if lo >= bits:
+                    return self._multi(path, frame, t, [(NONE, path)], depth)
+                c = self.binop(path, "Lt", b, INT(bits, width_of(b)), 8)
+                p2 = path.copy()
+                self.assume_cond(path, c, 1)
+                self.assume_cond(p2, c, 0)
+                return self._multi(path, frame, t, [(SOME(val), path), (NONE, p2)], depth)
             if meth == "wrapping_neg":
                 return self._multi(path, frame, t, [(self.binop(path, "Sub", INT(0, bits), a, bits, signed), path)], depth)
         if name in ("std::cmp::min", "core::cmp::min", "std::cmp::Ord::min"):
@@ -1305,41 +1407,48 @@ class Interp:
                 return self._multi(path, frame, t, outs, depth)
             if meth in ("cloned", "copied", "as_ref", "as_mut"):
                 return self._multi(path, frame, t, [(v, path)], depth)
-        # --- closures called through Fn traits
-        if name.endswith(("::call", "::call_mut", "::call_once")) and "ops::Fn" in name or \
-                name in ("std::ops::Fn::call", "std::ops::FnMut::call_mut", "std::ops::FnOnce::call_once"):
-            envv = args[0]
-            env = self._deref_all(path, envv)
-            if env[0] == "agg" and env[1].startswith("closure:"):
-                cdef = env[1][8:]
-                cb = F_.bodies.get(cdef)
-                if cb is not None and depth < self.max_depth:
-                    tup = args[1] if len(args) > 1 else UNIT
-                    if tup[0] == "agg":
-                        cargs = list(tup[3])
+        return None
+
+    FN_TRAIT_CALLS = ("std::ops::Fn::call", "std::ops::FnMut::call_mut", "std::ops::FnOnce::call_once")
+
+    def closure_call(self, path, frame, t, name, args, depth):
+        """`f(args)` through the Fn traits (rust-call ABI: env + argument tuple)."""
+        F_ = self.F
+        envv = args[0]
+        env = self._deref_all(path, envv)
+        cdef = None
+        if name in F_.bodies and F_.bodies[name]["kind"] == "Closure":
+            cdef = name
+        elif env[0] == "agg" and env[1].startswith("closure:"):
+            cdef = env[1][8:]
+        tup = args[1] if len(args) > 1 else UNIT
+        if cdef is not None:
+            cb = F_.bodies.get(cdef)
+            if cb is not None and depth < self.max_depth and not cb.get("coroutine"):
+                if tup[0] == "agg":
+                    cargs = list(tup[3])
+                else:
+                    cargs = [("field", tup, i) for i in range(cb["argc"] - 1)]
+                l1 = cb["locals"][1]
+                if isinstance(l1, list) and l1[0] == "ref":
+                    if envv[0] == "ref" and self.read_loc(path, envv[1])[0] == "ref":
+                        envarg = self.read_loc(path, envv[1])
+                    elif envv[0] == "ref":
+                        envarg = envv
                     else:
-                        cargs = [("field", tup, i) for i in range(cb["argc"] - 1)]
-                    # closure body takes the environment by reference (Fn/FnMut) or value (FnOnce)
-                    l1 = cb["locals"][1]
-                    if isinstance(l1, list) and l1[0] == "ref":
-                        if envv[0] == "ref" and self.read_loc(path, envv[1])[0] == "ref":
-                            envarg = self.read_loc(path, envv[1])
-                        elif envv[0] == "ref":
-                            envarg = envv
-                        else:
-                            tmp = ("L", ("env", frame.fid, t["sp"]), 0)
-                            path.store[tmp] = env
-                            envarg = ("ref", (tmp, ()), False)
-                    else:
-                        envarg = env
-                    path.events.append(("closure_call", cdef))
-                    return self._inline(path, frame, t, cb, [envarg] + cargs, depth)
-            if env[0] == "fn":
-                cb = F_.bodies.get(env[2] or env[1])
-                if cb is not None and depth < self.max_depth:
-                    tup = args[1] if len(args) > 1 else UNIT
-                    cargs = list(tup[3]) if tup[0] == "agg" else []
-                    return self._inline(path, frame, t, cb, cargs, depth)
+                        tmp = ("L", ("env", frame.fid, t["sp"]), 0)
+                        path.store[tmp] = env
+                        envarg = ("ref", (tmp, ()), False)
+                else:
+                    envarg = env
+                path.events.append(("closure_call", cdef))
+                return self._inline(path, frame, t, cb, [envarg] + cargs, depth)
+        if env[0] == "fn":
+            cb = F_.bodies.get(env[2] or env[1])
+            if cb is not None and depth < self.max_depth:
+                cargs = list(tup[3]) if tup[0] == "agg" else []
+                return self._inline(path, frame, t, cb, cargs, depth)
+        path.events.append(("unknown_closure_call", env, F.site_str(frame.body, t["sp"])))
         return None
 
     def _deref_all(self, path, v, n=4):
